@@ -214,7 +214,7 @@ def save_variant(doc, packaging, pretty, base):
         return {"flat": etree.fromstring(buf.getvalue())}
     out = {}
     for n, d, _ in entries:
-        if n in XMLPARTS:
+        if n in XMLPARTS or n == "META-INF/manifest.xml":
             out[n] = etree.fromstring(d)
     return out
 
@@ -230,7 +230,7 @@ def mem_snapshot(doc):
 
 
 SAVE_KINDS = (("zip", False), ("zip", True), ("folder", False), ("folder", None), ("xml", False), ("xml", True))
-PREPARATIONS = ("untouched", "body-read", "parts-serialized", "meta-edited-back")
+PREPARATIONS = ("untouched", "body-read", "parts-serialized", "meta-edited-back", "file-added")
 DEEP_SEEDS = {("generated", "quick"), ("generated", "thorough"), ("file", "example.odt"), ("template", "text"), ("file", "simple_table.ods"), ("file", "frame_image.odp")}
 
 
@@ -245,6 +245,14 @@ def prepare(doc, how):
         t = doc.meta.title
         doc.meta.title = "x"
         doc.meta.title = t
+    elif how == "file-added":
+        # the manifest (and the set of parts) changed in memory since the document was opened
+        doc.add_file(str(SAMPLES / "image.png"))
+
+
+def manifest_entries(root):
+    ns = "{%s}" % NS["manifest"]
+    return {(e.get(ns + "full-path"), e.get(ns + "media-type")) for e in root.iter(ns + "file-entry")}
 
 
 def work(seed):
@@ -369,8 +377,14 @@ def work(seed):
                             if pretty is None:
                                 target = os.path.join(base, "seq")
                                 doc.save(target, packaging="folder")
+                                inter = {n: etree.fromstring(d) for n, d, _ in read_folder(target + ".folder") if n in XMLPARTS or n == "META-INF/manifest.xml"}
                             else:
-                                save_variant(doc, packaging, pretty, base)
+                                inter = save_variant(doc, packaging, pretty, base)
+                            # what the package declares does not depend on packaging or layout
+                            mn = "META-INF/manifest.xml"
+                            if mn in inter and mn in ref2 and manifest_entries(inter[mn]) != manifest_entries(ref2[mn]):
+                                fail(label, "sequence", "manifest-of-this-save", sorted(manifest_entries(ref2[mn]))[-3:], sorted(manifest_entries(inter[mn]))[-3:], "manifest-differs-from-plain-save", step=f"{packaging}:{pretty}")
+                                break
                         last = save_variant(doc, "zip", False, base)
                     except Exception as e:
                         fail(label, "sequence", "raises", "no exception", type(e).__name__, f"raises:{type(e).__name__}")
